@@ -1604,6 +1604,7 @@ fn gen_values(rng: &mut Rng) -> String {
     let mut p1: Vec<String> = vec![];
     let mut touched: Vec<String> = vec![];
     let mut unreadable: Vec<String> = vec![];
+    let mut params: Vec<String> = vec![];
     let unit = |rng: &mut Rng| *rng.pick(&["pt", "fil", "fill", "filll"]);
     let num = |rng: &mut Rng| *rng.pick(&["0", "1", "-1", "2.5", "-0.33333", "16383.99998", "100"]);
     for level in 0..=depth {
@@ -1612,7 +1613,23 @@ fn gen_values(rng: &mut Rng) -> String {
         }
         for _ in 0..rng.range(1, 3) {
             let g = if rng.chance(1, 4) { "\\global" } else { "" };
-            let (reg, val) = match rng.below(4) {
+            let (reg, val) = match rng.below(5) {
+                4 => {
+                    // singleton parameters over the whole i32 range: also the values whose *effect*
+                    // coincides with another value's (\\endlinechar < 0 or >= 128 all append nothing)
+                    let p = *rng.pick(&["endlinechar", "endlinechar", "globaldefs", "year", "month", "day", "time", "dumpFormat", "dumpValidate", "tracingmacros"]);
+                    let v = if p == "tracingmacros" {
+                        // positive values write a trace of every macro call to the terminal
+                        *rng.pick(&[-2147483647i64, -150, -1, 0])
+                    } else {
+                        *rng.pick(&[-2147483647i64, -150, -7, -2, -1, 0, 1, 13, 32, 65, 127, 128, 200, 255, 256, 65536, 2147483647])
+                    };
+                    let reg = format!("\\{p}");
+                    if !params.contains(&reg) {
+                        params.push(reg.clone());
+                    }
+                    (reg, v.to_string())
+                }
                 0 => (
                     format!("\\count {}", gen_idx(0, rng)),
                     rng.pick(&["0", "-2147483647", "2147483647", "'777", "\"7FFF", "`\\a", "-\\count 1"]).to_string(),
@@ -1668,6 +1685,85 @@ fn gen_values(rng: &mut Rng) -> String {
     for _ in 0..depth {
         p2.push("}".into());
         reads(&mut p2);
+    }
+    // the parameters are not only read but computed with after the checkpoint
+    for p in &params {
+        let by = *rng.pick(&[-150i64, -1, 1, 7, 150]);
+        p2.push(format!("\\advance{p} by {by} /\\the{p},"));
+    }
+    format!("tex {}<NL><CP>{}<NL>", p1.join("<NL>"), p2.join("<NL>"))
+}
+
+/// Control-sequence names: 2..6 names out of the empty name (a backslash at the end of a line
+/// while `\\endlinechar` is -1), one-character names (letter, other character, space), names that
+/// are prefixes of each other, names differing in case, a 64-letter name, and duplicates; defined
+/// (sometimes only mentioned inside a macro body, so interned but undefined) before the
+/// checkpoint, at group depth 0..1; after it every name is used, some are redefined and used
+/// again, and new names are introduced.
+fn gen_names(rng: &mut Rng) -> String {
+    let long = "n".repeat(64);
+    let pool: Vec<String> = vec![
+        String::new(), String::new(), "a".into(), "A".into(), "+".into(), ";".into(), "ab".into(), "abc".into(), "abcd".into(), "b".into(), "ba".into(), long,
+    ];
+    let n = rng.range(2, 6) as usize;
+    let names: Vec<String> = (0..n).map(|_| rng.pick(&pool).clone()).collect(); // duplicates allowed
+    let has_empty = names.iter().any(|x| x.is_empty());
+    // with \endlinechar=-1 a line break is nothing at all: a control word at the end of a line
+    // must be followed by something that ends it
+    let def = |name: &str, body: &str| -> Vec<String> {
+        if name.is_empty() {
+            vec!["\\def\\".into(), format!("{{({body})}}")]
+        } else {
+            vec![format!("\\def\\{name}{{({body})}}")]
+        }
+    };
+    let usage = |name: &str| -> Vec<String> {
+        if name.is_empty() {
+            vec!["[\\".into(), "]".into()]
+        } else if name.chars().all(|c| c.is_ascii_alphabetic()) {
+            vec![format!("[\\{name} ]")]
+        } else {
+            vec![format!("[\\{name}]")]
+        }
+    };
+    let mut p1: Vec<String> = vec![];
+    if has_empty {
+        p1.push("\\endlinechar=-1 ".into());
+    }
+    let in_group = rng.chance(1, 3);
+    let mut only_mentioned: Vec<usize> = vec![];
+    for (i, name) in names.iter().enumerate() {
+        if in_group && i == n / 2 {
+            p1.push("{".into());
+        }
+        if rng.chance(1, 5) && !name.is_empty() && names.iter().filter(|x| *x == name).count() == 1 {
+            // only mentioned: interned, not defined here
+            p1.push(format!("\\def\\holder{}{{\\{name} }}", (b'a' + i as u8) as char));
+            only_mentioned.push(i);
+        } else {
+            p1.extend(def(name, &format!("d{i}")));
+        }
+    }
+    let mut p2: Vec<String> = vec![];
+    for (i, name) in names.iter().enumerate() {
+        if only_mentioned.contains(&i) || rng.chance(1, 4) {
+            p2.extend(def(name, &format!("r{i}")));
+        }
+        p2.extend(usage(name));
+    }
+    // names never seen before the checkpoint (the rebuilt interner keeps interning)
+    p2.extend(def("fresh", "f"));
+    p2.extend(usage("fresh"));
+    p2.extend(def("abcde", "g"));
+    p2.extend(usage("abcde"));
+    if in_group {
+        p2.push("}".into());
+        for (i, name) in names.iter().enumerate() {
+            // defined at the outer level before the group was opened
+            if i < n / 2 && !only_mentioned.contains(&i) {
+                p2.extend(usage(name));
+            }
+        }
     }
     format!("tex {}<NL><CP>{}<NL>", p1.join("<NL>"), p2.join("<NL>"))
 }
@@ -2261,6 +2357,8 @@ impl Property for C08 {
          conds: 1..5 open conditionals nested in any order, each in one of 7 states (true / else branch, case branch, first case, default branch, \\ifnum, \\ifodd-else), closed inside-out, 1 in 10 closers illegal for the state. \
          macros: 1..3 macros with optional prefix tokens, 0..3 undelimited/delimited parameters, optional final #{, \\long/\\global, at group depth 0..2, called with matching arguments at every level after the checkpoint. \
          values: count/dimen/skip/toks in their full value syntax (extremes, fractions, signs, every glue order on stretch and shrink, token lists with every kind of token) at register numbers 0..3, 255, 256, 300, 32767, depth 0..3, with/without \\global, read with \\the at every level. \
+         names: 2..6 control-sequence names out of the empty name (backslash at a line end with \\endlinechar=-1), one-character names (letter/other), prefixes of each other, case variants, a 64-letter name, duplicates, some only mentioned in a macro body; defined before the checkpoint (depth 0..1), used / redefined after it, plus names first seen after it. \
+         values also assigns the singleton parameters (\\endlinechar, \\globaldefs, \\year, \\month, \\day, \\time, \\dumpFormat, \\dumpValidate, \\tracingmacros) values from the whole i32 range (negatives other than -1, 127/128, 255/256, 65536, extremes) and after the checkpoint reads them with \\the and \\advance-s them. \
          Fonts: the host defines selectors \\fonta..\\fontd (fonts 1..4) through Map::insert; ops/layers select them locally and globally; VM::current_font is part of the state digests and of the model comparison; programs sometimes end inside open groups. \
          All VMs have the stdlib built-ins plus the script component's \\par and \\newline, and an exhausted mock terminal. \
          tex: random selections from a table of unmodelled state (parameterised and delimited macros, \\long, catcode changes incl. active letters and code points > 127, \\endlinechar, token lists with control sequences, \\newInt/\\newIntArray, interaction modes, glue, \\let to 20 primitives incl. conditionals, interned-but-undefined names, pending output white space) inside open groups and open conditionals (\\iftrue, \\iffalse\\else, \\ifcase, \\ifnum, \\ifodd, nested) that P2 closes; every probe is repeated after every closing brace. \
@@ -2363,6 +2461,10 @@ impl Property for C08 {
         let mut r = rng.fork();
         for _ in 0..(if ctx.thorough { 700 } else { 70 }) {
             v.push(format!("ops {}", join(&enc_ops(&gen_sharing(&mut r)))));
+        }
+        let mut r = rng.fork();
+        for _ in 0..(if ctx.thorough { 600 } else { 60 }) {
+            v.push(gen_names(&mut r));
         }
         let mut r = rng.fork();
         for _ in 0..n_macros {
